@@ -224,6 +224,36 @@ def run_tlc_sharded(module, cfg_kwargs, nshards=None, timeout=3600, **kw):
     return res
 
 
+def apalache_lemmas(chk, module, lemmas, refuted=()):
+    """Discharge state lemmas of spec/<module>.tla symbolically with Apalache (unbounded integers):
+    `apalache-mc check --init=Init --inv=<lemma> --length=0`.  Every lemma must give NoError; every
+    operator in `refuted` (a deliberately false variant) must give a counterexample, which shows that the
+    encoding is not vacuous.  The verdicts go into the evidence (extra.apalache_unbounded_lemmas)."""
+    tmp = tempfile.mkdtemp(prefix="verif_apa_")
+
+    def one(inv):
+        out = os.path.join(tmp, inv)
+        try:
+            p = subprocess.run(["apalache-mc", "check", "--init=Init", f"--inv={inv}", "--length=0", f"--out-dir={out}",
+                                f"--run-dir={out}/run", os.path.join(SPEC, module + ".tla")],
+                               capture_output=True, text=True, timeout=1800, cwd=tmp)
+        except subprocess.TimeoutExpired:
+            return inv, "timeout", ""
+        txt = p.stdout + p.stderr
+        return inv, ("NoError" if "The outcome is: NoError" in txt else "Error" if "The outcome is: Error" in txt else "failed"), txt[-1500:]
+    try:
+        with cf.ThreadPoolExecutor(max_workers=4) as ex:
+            results = list(ex.map(one, list(lemmas) + list(refuted)))
+    finally:
+        shutil.rmtree(tmp, ignore_errors=True)
+    summary = chk.extra.setdefault("apalache_unbounded_lemmas", {})
+    for inv, verdict, tail in results:
+        summary[f"{module}!{inv}"] = verdict
+        want = "Error" if inv in refuted else "NoError"
+        if verdict != want:
+            raise MachineryError(f"Apalache: {module}!{inv} gave {verdict}, expected {want}\n{tail}")
+
+
 def require_model_ok(r, what):
     if r.violated:
         raise MachineryError(f"model-level invariant {r.violated} violated in {what}: "
